@@ -60,6 +60,11 @@ class LivePool:
                 me.history.append((me.incarnation, tid, name))
                 return tid
 
+        def on_event(kind, proc, *a):
+            if kind == "spawn":
+                self.max_live = max(getattr(self, "max_live", 0), len([p for p in self.world.live() if not p.killed]))
+
+        self.world.listeners.append(on_event)
         os.makedirs(os.path.join(self.workdir, ".gwf", "logs"), exist_ok=True)
         self.sched = self.world.loop.do(MonSched, self.workdir, self.cores)
         self.server = self.local.Server(self.sched)
@@ -112,8 +117,8 @@ class LivePool:
             alive = any(p.alive for p in procs)
             killed = any(p.killed for p in procs)
             tasks.append(dict(tid=tid, name=name, state=st, alive=alive, killed=killed, done=self.sched.tasks[tid].done()))
-        return dict(incarnation=self.incarnation, tasks=tasks, sem=self.sched.cores_ressource._value, timers=self.world.loop.next_deadline() is not None,
-                    history=[list(h) for h in self.history])
+        return dict(incarnation=self.incarnation, tasks=tasks, sem=getattr(self.sched.cores_ressource, "_value", None), timers=self.world.loop.next_deadline() is not None,
+                    history=[list(h) for h in self.history], max_live=getattr(self, "max_live", 0))
 
     def pool_dict(self):
         return dict(cores=self.cores, log=copy.deepcopy(self.log), summary=self.summary())
